@@ -1,0 +1,161 @@
+//go:build verif
+// +build verif
+
+package caching
+
+// Thin wrappers that expose unexported functions and fields to the verification harness
+// (/verif/harness). Built only with -tags verif. No logic lives here.
+
+import (
+	"net/http"
+	"os"
+	"path/filepath"
+	"time"
+
+	apexlog "github.com/apex/log"
+)
+
+func VerifEncodeMeta(sm StorageMetadata) []byte              { return encodeStorageMetadata(sm) }
+func VerifDecodeMeta(b []byte) (StorageMetadata, error)      { return decodeStorageMetadata(b) }
+func VerifEncodeCustom(sm *StorageMetadata) string           { return encodeCustom(sm) }
+func VerifDecodeCustom(sm *StorageMetadata, b *[]byte) error { return decodeCustom(sm, b) }
+func VerifHeaderToS(h *http.Header) string                   { return headerToS(h) }
+func VerifSToHeader(h *http.Header, s *string) error         { return sToHeader(h, s) }
+func VerifNormalizeEtag(s string) string                     { return normalizeEtag(s) }
+func VerifContentLengthFromRange(s string) string            { return contentLengthFromRange(s) }
+func VerifAllHeaderValues(k string, h http.Header) []string  { return allHeaderValues(k, h) }
+func VerifNotFoundPreferredKey(keys []Key) Key               { return notFoundPreferredKey(keys) }
+func VerifPrefixWithItemName(s string) string                { return prefixWithItemName(s) }
+func VerifKeyClientHeaders() []string                        { return keyClientHeaders }
+
+type VerifKeyView struct {
+	Method, Host, Path string
+	OpaqueOrigin       bool
+	StoredHeaders      http.Header
+}
+
+func VerifKey(k Key) VerifKeyView {
+	return VerifKeyView{k.method, k.host, k.path, k.opaqueOrigin, k.storedHeaders}
+}
+
+type VerifDirs struct {
+	NoCache, NoStore, Private                           bool
+	MaxAge, SMaxAge, StaleIfError, StaleWhileRevalidate *int64
+	Vary                                                []string
+}
+
+func VerifDirectives(d CacheControlDirectives) VerifDirs {
+	return VerifDirs{d.NoCache, d.NoStore, d.Private, d.MaxAge, d.SMaxAge, d.staleIfError, d.staleWhileRevalidate, d.vary}
+}
+
+// VerifLimiter is a storage without its goroutines: the size-limiter state machine can be
+// driven step by step by the harness.
+type VerifLimiter struct{ S *storage }
+
+func VerifNewLimiter(id, path string, maxSize int64, startedAt int64, logger *apexlog.Logger, now func() time.Time) *VerifLimiter {
+	createStoragePath(path)
+	s := &storage{
+		id:                    id,
+		path:                  path,
+		maxSizeBytes:          maxSize,
+		startedAt:             startedAt,
+		itemsChan:             make(chan *itemWithOp, 100000),
+		withAccessTime:        make(map[itemName]accessedItem, 0),
+		storableAccessedItems: make(map[itemName]storableAccessedItem, 0),
+		withoutAccessTime:     make(map[itemName]item, 0),
+		atimesPath:            filepath.Join(path, "atimes"),
+		logger:                logger,
+		now:                   now,
+	}
+	return &VerifLimiter{s}
+}
+
+type VerifAccessed struct {
+	AccessTime    uint32
+	SizeKilobytes uint32
+}
+
+func (l *VerifLimiter) ReadFiles() int { return l.S.readFiles(l.S.path) }
+func (l *VerifLimiter) ReadStorableAccessTimes() (map[string]VerifAccessed, error) {
+	m, err := l.S.readStorableAccessTimes()
+	out := map[string]VerifAccessed{}
+	for k, v := range m {
+		out[string(k)] = VerifAccessed{uint32(v.accessTime), v.sizeKilobytes}
+	}
+	return out, err
+}
+
+// InstallAccessTimes performs the start-up merge of runSizeLimiter (disk.go:536-539).
+func (l *VerifLimiter) InstallAccessTimes(m map[string]VerifAccessed) {
+	for n, i := range m {
+		l.S.withAccessTime[itemName(n)] = accessedItem{accessTime(i.AccessTime), i.SizeKilobytes}
+		delete(l.S.withoutAccessTime, itemName(n))
+	}
+}
+func (l *VerifLimiter) FlushStorableAccessTimes() { l.S.flushStorableAccessTimes() }
+func (l *VerifLimiter) PurgeableItemNames(purgeBytes int64) (with []string, without []string, size int64) {
+	p := l.S.purgeableItemNames(purgeBytes)
+	for _, n := range p.withAccessTimes {
+		with = append(with, string(n))
+	}
+	for _, n := range p.withoutAccessTimes {
+		without = append(without, string(n))
+	}
+	return with, without, p.size
+}
+func (l *VerifLimiter) SizeBytes() int64     { return l.S.sizeBytes }
+func (l *VerifLimiter) SetSizeBytes(v int64) { l.S.sizeBytes = v }
+func (l *VerifLimiter) MaxSizeBytes() int64  { return l.S.maxSizeBytes }
+func (l *VerifLimiter) StartedAt() int64     { return l.S.startedAt }
+func (l *VerifLimiter) Path() string         { return l.S.path }
+func (l *VerifLimiter) WithAccessTime() map[string]VerifAccessed {
+	out := map[string]VerifAccessed{}
+	for k, v := range l.S.withAccessTime {
+		out[string(k)] = VerifAccessed{uint32(v.accessTime), v.sizeKilobytes}
+	}
+	return out
+}
+func (l *VerifLimiter) WithoutAccessTime() map[string]uint32 {
+	out := map[string]uint32{}
+	for k, v := range l.S.withoutAccessTime {
+		out[string(k)] = v.sizeKilobytes
+	}
+	return out
+}
+func (l *VerifLimiter) Storable() map[string][2]int64 {
+	out := map[string][2]int64{}
+	for k, v := range l.S.storableAccessedItems {
+		out[string(k)] = [2]int64{v.accessTime, int64(v.sizeKilobytes)}
+	}
+	return out
+}
+
+// The three ops of the runSizeLimiter switch (disk.go:554-569), applied exactly as the loop does.
+func (l *VerifLimiter) OpAdd(name string, atime uint32, kb uint32) {
+	ai := accessedItem{accessTime(atime), kb}
+	l.S.withAccessTime[itemName(name)] = ai
+	l.S.sizeBytes += int64(ai.sizeKilobytes * 1024)
+}
+func (l *VerifLimiter) OpAccessTime(name string, atime uint32, kb uint32, unix int64) {
+	l.S.withAccessTime[itemName(name)] = accessedItem{accessTime(atime), kb}
+	l.S.storableAccessedItems[itemName(name)] = storableAccessedItem{unix, kb}
+}
+
+// PurgeSubtract performs the bookkeeping half of a purge pass (disk.go:614-623) for names the
+// pass removed (or found already missing).
+func (l *VerifLimiter) PurgeSubtract(removedWith, removedWithout []string) {
+	for _, n := range removedWith {
+		sizeKb := l.S.withAccessTime[itemName(n)].sizeKilobytes
+		delete(l.S.withAccessTime, itemName(n))
+		l.S.sizeBytes -= int64(sizeKb * 1024)
+	}
+	for _, n := range removedWithout {
+		sizeKb := l.S.withoutAccessTime[itemName(n)].sizeKilobytes
+		delete(l.S.withoutAccessTime, itemName(n))
+		l.S.sizeBytes -= int64(sizeKb * 1024)
+	}
+}
+
+func VerifMaxPurgeBytes() int64 { return maxPurgeBytes }
+
+var _ = os.Remove
